@@ -178,58 +178,76 @@ func c05FreeVarIsParam(v ssa.Value, p *ssa.Parameter) bool {
 func c05A6(e *c05env) {
 	c := e.c
 	ng := c.Fn("core.NewDutyGater")
-	var gater *ssa.Function
-	for _, r := range an.Returns(ng) {
-		if len(r.Results) != 2 || !c05IsNilErr(r.Results[1]) {
+	// the function value(s) NewDutyGater hands out on success: literal, local, bound method, constructor helper
+	var gaters []*ssa.Function
+	for _, rc := range an.SuccessCases(ng) {
+		if len(rc.Vals) == 0 || an.IsNilConst(an.Resolve(rc.Vals[0])) {
 			continue
 		}
-		mc, ok := an.Unwrap(r.Results[0]).(*ssa.MakeClosure)
-		if !ok || gater != nil {
-			c.Bail("NewDutyGater: successful result is not a single function literal")
+		fs := gtFuncValues(rc.Vals[0], 0)
+		if len(fs) == 0 {
+			c.Bail("NewDutyGater: cannot resolve the function value it returns")
 		}
-		gater, _ = mc.Fn.(*ssa.Function)
+		gaters = append(gaters, fs...)
 	}
-	if gater == nil || len(gater.Params) != 1 {
-		c.Bail("NewDutyGater: gater closure not found")
-	}
-	var valid []ssa.CallInstruction
-	for _, g := range an.Calls(gater, an.Static("core.DutyType.Valid"), false) {
-		a := an.Unwrap(g.Common().Args[0])
-		isType := false
-		switch x := a.(type) {
-		case *ssa.Field:
-			isType = an.FieldKey(x.X.Type(), x.Field) == "core.Duty.Type" && rootedAt(x.X, gater.Params[0])
-		case *ssa.UnOp:
-			if fa, ok := x.X.(*ssa.FieldAddr); ok && x.Op == token.MUL {
-				isType = an.FieldKey(fa.X.Type(), fa.Field) == "core.Duty.Type" && rootedAt(fa.X, gater.Params[0])
-			}
-		}
-		if isType {
-			valid = append(valid, g)
-		}
+	if len(gaters) == 0 {
+		c.Bail("NewDutyGater: gater function not found")
 	}
 	n := 0
-	for _, r := range an.Returns(gater) {
-		if len(r.Results) != 1 {
-			continue
-		}
-		if k, ok := r.Results[0].(*ssa.Const); ok && k.Value != nil && !constant.BoolVal(k.Value) {
-			continue
-		}
-		n++
-		good, why := false, "the gater can allow a duty without testing duty.Type.Valid()"
-		for _, g := range valid {
-			ok, w := an.Guarded(g, r, an.BoolGuard(0, true))
-			if ok {
-				good = true
-			} else {
-				why = w
+	for _, gater := range gaters {
+		// calls of DutyType.Valid on the Type of a Duty-typed parameter (or of a local copy of it)
+		var valid []ssa.CallInstruction
+		for _, g := range an.Calls(gater, an.Static("core.DutyType.Valid"), false) {
+			a := an.Resolve(g.Common().Args[0])
+			isType := false
+			switch x := a.(type) {
+			case *ssa.Field:
+				isType = an.FieldKey(x.X.Type(), x.Field) == "core.Duty.Type"
+			case *ssa.UnOp:
+				if fa, ok := x.X.(*ssa.FieldAddr); ok && x.Op == token.MUL {
+					isType = an.FieldKey(fa.X.Type(), fa.Field) == "core.Duty.Type"
+				}
+			}
+			if isType {
+				valid = append(valid, g)
 			}
 		}
-		c.Check("NewDutyGater closure allows only valid duty types", posOf(r), good, why)
+		key := "NewDutyGater closure allows only valid duty types"
+		if len(valid) == 0 {
+			// the test may sit in a helper: not followed
+			helper := false
+			for _, in := range an.Instrs(gater, false) {
+				if ci, ok := in.(ssa.CallInstruction); ok && ci.Common().StaticCallee() != nil && ci.Common().StaticCallee().Pkg == gater.Pkg {
+					helper = true
+				}
+			}
+			n++
+			if helper {
+				c.Unsure(key, gater.Pos(), "no duty.Type.Valid() test in the gater itself; it calls in-package helpers that are not followed")
+			} else {
+				c.Bad(key, gater.Pos(), "the gater can allow a duty without testing duty.Type.Valid()")
+			}
+			continue
+		}
+		// under "Valid() == false" for every such call no path may return a value that can be true
+		env := func(v ssa.Value) (constant.Value, bool) {
+			for _, g := range valid {
+				if v == g.Value() {
+					return constant.MakeBool(false), true
+				}
+			}
+			return nil, false
+		}
+		n++
+		bad := c05MayReturnTrueUnder(gater, env)
+		pos := gater.Pos()
+		if bad != nil {
+			pos = posOf(bad)
+		}
+		c.Check(key, pos, bad == nil, "the gater can allow a duty whose type is not valid (a return that may yield true is reachable although duty.Type.Valid() is false or was never asked)")
 	}
 	if n == 0 {
-		c.Bad("NewDutyGater closure allows only valid duty types", gater.Pos(), "the gater never allows anything (or its result is not recognised)")
+		c.Bad("NewDutyGater closure allows only valid duty types", ng.Pos(), "the gater never allows anything (or its result is not recognised)")
 	}
 	// wiring: NewDutyGater → NewConsensusController → qbft.NewConsensus → Consensus.gaterFunc
 	nc := c.Fn(c05Q + ".NewConsensus")
@@ -287,4 +305,101 @@ func c05A6(e *c05env) {
 		}
 	}
 	c.Check("wireCoreWorkflow wires core.NewDutyGater into consensus", wcall.Pos(), good, "the consensus gater is not the checked result of core.NewDutyGater")
+}
+
+// c05MayReturnTrueUnder enumerates the paths of a bool-returning function under a valuation of some of its
+// values; branch conditions and returned values are evaluated along the path, phis by the edge entered.
+// It returns a return instruction that can yield a non-false value on a feasible path (nil if none).
+func c05MayReturnTrueUnder(fn *ssa.Function, env an.C05Env) *ssa.Return {
+	type frame struct {
+		b    *ssa.BasicBlock
+		prev *ssa.BasicBlock
+	}
+	var found *ssa.Return
+	visits := map[*ssa.BasicBlock]int{}
+	steps := 0
+	var walk func(b, prev *ssa.BasicBlock, phis map[*ssa.Phi]ssa.Value)
+	walk = func(b, prev *ssa.BasicBlock, phis map[*ssa.Phi]ssa.Value) {
+		if found != nil || visits[b] >= 2 || steps > 20000 {
+			return
+		}
+		steps++
+		visits[b]++
+		defer func() { visits[b]-- }()
+		local := phis
+		if prev != nil {
+			local = map[*ssa.Phi]ssa.Value{}
+			for k, v := range phis {
+				local[k] = v
+			}
+			for _, in := range b.Instrs {
+				phi, ok := in.(*ssa.Phi)
+				if !ok {
+					break
+				}
+				for i, p := range b.Preds {
+					if p == prev {
+						local[phi] = phi.Edges[i]
+					}
+				}
+			}
+		}
+		penv := func(v ssa.Value) (constant.Value, bool) {
+			for i := 0; i < 8; i++ {
+				if phi, ok := v.(*ssa.Phi); ok {
+					if e, ok := local[phi]; ok {
+						v = e
+						continue
+					}
+				}
+				break
+			}
+			if k, ok := v.(*ssa.Const); ok && k.Value != nil {
+				return k.Value, true
+			}
+			return env(v)
+		}
+		last := b.Instrs[len(b.Instrs)-1]
+		switch x := last.(type) {
+		case *ssa.Return:
+			if b == fn.Recover || len(x.Results) != 1 {
+				return
+			}
+			rv := returnValues(x)[0]
+			if k, ok := an.C05Eval(rv, penv); ok && k.Kind() == constant.Bool && !constant.BoolVal(k) {
+				return
+			}
+			if k, ok := penv(rv); ok && k.Kind() == constant.Bool && !constant.BoolVal(k) {
+				return
+			}
+			found = x
+		case *ssa.If:
+			if k, ok := an.C05Eval(x.Cond, penv); ok && k.Kind() == constant.Bool {
+				if constant.BoolVal(k) {
+					walk(b.Succs[0], b, local)
+				} else {
+					walk(b.Succs[1], b, local)
+				}
+				return
+			}
+			if k, ok := penv(x.Cond); ok && k.Kind() == constant.Bool {
+				if constant.BoolVal(k) {
+					walk(b.Succs[0], b, local)
+				} else {
+					walk(b.Succs[1], b, local)
+				}
+				return
+			}
+			walk(b.Succs[0], b, local)
+			walk(b.Succs[1], b, local)
+		default:
+			for _, sc := range b.Succs {
+				walk(sc, b, local)
+			}
+		}
+	}
+	if len(fn.Blocks) > 0 {
+		walk(fn.Blocks[0], nil, map[*ssa.Phi]ssa.Value{})
+	}
+	return found
 }
